@@ -163,6 +163,12 @@ func (group *Group) AddRtmpPullSession(session *rtmp.PullSession) error {
 	group.mutex.Lock()
 	defer group.mutex.Unlock()
 
+	// 回源连接建立的过程中，回源可能已经被停止了（比如调用了stop_relay_pull），这种情况不再接入
+	if !group.pullProxy.staticRelayPullEnable && !group.pullProxy.apiEnable {
+		Log.Warnf("[%s] relay pull stopped while connecting. wanna add=%s", group.UniqueKey, session.UniqueKey())
+		return base.ErrSessionNotStarted
+	}
+
 	if group.hasInSession() {
 		Log.Errorf("[%s] in stream already exist. wanna add=%s", group.UniqueKey, session.UniqueKey())
 		return base.ErrDupInStream
@@ -198,6 +204,12 @@ func (group *Group) AddRtmpPullSession(session *rtmp.PullSession) error {
 func (group *Group) AddRtspPullSession(session *rtsp.PullSession) error {
 	group.mutex.Lock()
 	defer group.mutex.Unlock()
+
+	// 回源连接建立的过程中，回源可能已经被停止了（比如调用了stop_relay_pull），这种情况不再接入
+	if !group.pullProxy.staticRelayPullEnable && !group.pullProxy.apiEnable {
+		Log.Warnf("[%s] relay pull stopped while connecting. wanna add=%s", group.UniqueKey, session.UniqueKey())
+		return base.ErrSessionNotStarted
+	}
 
 	if group.hasInSession() {
 		Log.Errorf("[%s] in stream already exist. wanna add=%s", group.UniqueKey, session.UniqueKey())
